@@ -515,6 +515,10 @@ def call_ext(interp, ext, node, args, kwargs, st):
                 tags = tags | frozenset(tg for tg in a0.tags if isinstance(tg, tuple) and tg[0] in ("saved-centroid", "getter-of"))
             if name in ("array", "asarray", "copy", "asanyarray", "ascontiguousarray"):
                 tags = tags | frozenset([("val-of", interp.val_id(a0))])
+            if "world3" in a0.tags and name in ("array", "asarray", "copy", "asanyarray", "roll", "atleast_2d", "negative", "flip"):
+                tags = tags | frozenset(["world3"])
+            if "unit" in a0.tags and name in ("array", "asarray", "copy", "asanyarray", "negative", "squeeze", "atleast_1d"):
+                tags = tags | frozenset(["unit"])
             if name in ("array", "asarray", "asanyarray") and "dtype" not in kwargs and len(args) < 2:
                 # the dtype is the caller's: integers stay an integer array (in-place float arithmetic then raises)
                 els = list(a0.items) if (a0.kind in ("list", "tuple") and a0.items is not None) else [a0]
